@@ -30,7 +30,7 @@ func init() {
 	})
 }
 
-var oddNames = []string{"a", "b", "B", "aa", "a b", " a", "a ", "ä", "日本", "a\"b", "\"", "'", "x'y", "a,b", "a\nb", "\x00", "\xff", "a$", "A$b", "1", "-", "\"a", "a\"", "'x", "Ω", "const-temp-0", "__id2", "z"}
+var oddNames = []string{"'ab", "ab'", "\"ab", "ab\"", "'a\"", "a", "b", "B", "aa", "a b", " a", "a ", "ä", "日本", "a\"b", "\"", "'", "x'y", "a,b", "a\nb", "\x00", "\xff", "a$", "A$b", "1", "-", "\"a", "a\"", "'x", "Ω", "const-temp-0", "__id2", "z"}
 
 func runC08(c *fw.Case) {
 	if c.No%2 == 0 {
